@@ -95,7 +95,9 @@ func (t *Trie) mergeExtension(prefix []byte, sub Node) (Node, error) {
 		return t.mergeExtension(prefix, n)
 	default:
 		if len(prefix) != 0 {
-			e := NewExtensionNode(prefix, sub)
+			// prefix is a part of some longer path, the node needs its own copy:
+			// keys are appended to while traversing.
+			e := NewExtensionNode(bytes.Clone(prefix), sub)
 			t.addRef(e.Hash(), e.bytes)
 			return e, nil
 		}
